@@ -59,3 +59,49 @@ KERNELS = [
     K("src_sample_swr_alloc", SP, r"auto selection\s*=\s*indices_t\{(.*?)\};", _SIZE, [("size", "Z"), ("count", "Z")], "sampling", ["C12"], pick=0),
     K("src_sample_swrw_alloc", SP, r"auto selection\s*=\s*indices_t\{(.*?)\};", _SIZE, [("size", "Z"), ("count", "Z")], "sampling", ["C12"], pick=1),
 ]
+
+# ==== extension (ball in floating point, gboost::sampler_t) ==========================================================
+# The operator tree of the element-wise statement of sample_from_ball, as an expression over Z (C14's technique): the
+# PrimFloat twin in C12_Float_Defs.v is the *same* tree over binary64 operations (`ball_shape`), and
+# `C12_fl_shape_is_source` proves `ball_shape zops = src_ball_point` -- so a re-association, a dropped factor or another
+# norm in the source breaks a proof (or the anchor), not only the bit-for-bit comparison.
+GB = "src/gboost/sampler.cpp"
+_BALL_ATOMS = [(r"\bx0\.array\(\)", "x0"), (r"\bx\.array\(\)", "u"), (r"\bx\.lpNorm<2>\(\)", "nrm"), (r"\bx\.norm\(\)", "nrm"),
+               (r"\bx\.squaredNorm\(\)", "sqnrm"), (r"\bx\.lpNorm<1>\(\)", "nrm1"), (r"\bx\.lpNorm<Eigen::Infinity>\(\)", "nrminf")]
+_BALL_ARGS = [("x0", "Z"), ("radius", "Z"), ("z", "Z"), ("u", "Z"), ("nrm", "Z"), ("sqnrm", "Z"), ("nrm1", "Z"), ("nrminf", "Z")]
+_GB_ENUM = [("k_off", "Z"), ("k_subsample", "Z"), ("k_bootstrap", "Z"), ("k_wei_loss_bootstrap", "Z"), ("k_wei_grad_bootstrap", "Z")]
+_GB_ATOMS = [(r"tensor_size_t\{0\}", "0"), (r"\b(?:m_)?samples\.size\(\)", "size"), (r"\bm_type\b", "kind"), (r"gboost_subsample::(\w+)", r"k_\1")]
+# which sampling function a case of the switch calls, with which arguments: 0 = the samples themselves, 1 = without
+# replacement, 2 = with replacement (uniform), 3 = with replacement weighted by m_weights; anything else is not translated
+_GB_CALLS = [(r"^sample_without_replacement\(m_samples, count, m_rng\)$", "1"), (r"^sample_with_replacement\(m_samples, count, m_rng\)$", "2"),
+             (r"^sample_with_replacement\(m_samples, m_weights, count, m_rng\)$", "3"), (r"^m_samples$", "0")]
+_GB_CASE = r"case gboost_subsample::%s:\s*\{.*?return (.*?);"
+_GB_IDX = [(r"\bm_samples\(i\)", "sample_i")]
+_GB_IARGS = [("sample_i", "Z"), ("i", "Z"), ("size", "Z")]
+# an index argument: identifiers, arithmetic and one level of calls such as m_samples(i)
+_GA = r"((?:[^,();]|\(\s*[\w\s+*-]*\))+?)"
+_GX = r"(?:[^,();]|\(\s*[\w\s+*-]*\))+?"
+_GB_LOOP = r"for \(tensor_size_t i = %s, size = %s; i < size; \+\+i\)"
+
+KERNELS += [
+    K("src_ball_point", SP, r"\bx\.array\(\)\s*=\s*(.*?);", _BALL_ATOMS, _BALL_ARGS, "sampling", ["C12"]),
+    # count = static_cast<tensor_size_t>(m_ratio * static_cast<scalar_t>(m_samples.size())): the product inside the cast
+    K("src_gb_count_product", GB, r"const auto count\s*=\s*static_cast<tensor_size_t>\((.*?)\);",
+      [(r"static_cast<scalar_t>\(m_samples\.size\(\)\)", "size"), (r"\bm_ratio\b", "ratio")], [("ratio", "Z"), ("size", "Z")], "gbsampler", ["C12"]),
+    K("src_gb_weights_alloc", GB, r",\s*m_weights\((.*?)\)\s*\{\s*\}", _GB_ATOMS, [("kind", "Z"), ("size", "Z")] + _GB_ENUM, "gbsampler", ["C12"]),
+    K("src_gb_case_off", GB, _GB_CASE % "off", _GB_CALLS, [], "gbsampler", ["C12"]),
+    K("src_gb_case_subsample", GB, _GB_CASE % "subsample", _GB_CALLS, [], "gbsampler", ["C12"]),
+    K("src_gb_case_bootstrap", GB, _GB_CASE % "bootstrap", _GB_CALLS, [], "gbsampler", ["C12"]),
+    K("src_gb_case_wei_loss", GB, _GB_CASE % "wei_loss_bootstrap", _GB_CALLS, [], "gbsampler", ["C12"]),
+    K("src_gb_case_wei_grad", GB, _GB_CASE % "wei_grad_bootstrap", _GB_CALLS, [], "gbsampler", ["C12"]),
+    # the two weight loops: m_weights(dst) = errors_losses(row, col)  /  gradients.vector(col).lpNorm<2>()
+    K("src_gb_loss_dst", GB, r"m_weights\(" + _GA + r"\)\s*=\s*errors_losses\(" + _GX + r"," + _GX + r"\);", _GB_IDX, _GB_IARGS, "gbsampler", ["C12"]),
+    K("src_gb_loss_row", GB, r"m_weights\(" + _GX + r"\)\s*=\s*errors_losses\(" + _GA + r"," + _GX + r"\);", _GB_IDX, _GB_IARGS, "gbsampler", ["C12"]),
+    K("src_gb_loss_col", GB, r"m_weights\(" + _GX + r"\)\s*=\s*errors_losses\(" + _GX + r"," + _GA + r"\);", _GB_IDX, _GB_IARGS, "gbsampler", ["C12"]),
+    K("src_gb_grad_dst", GB, r"m_weights\(" + _GA + r"\)\s*=\s*gradients\.vector\(" + _GX + r"\)\.lpNorm<2>\(\);", _GB_IDX, _GB_IARGS, "gbsampler", ["C12"]),
+    K("src_gb_grad_col", GB, r"m_weights\(" + _GX + r"\)\s*=\s*gradients\.vector\(" + _GA + r"\)\.lpNorm<2>\(\);", _GB_IDX, _GB_IARGS, "gbsampler", ["C12"]),
+    K("src_gb_loop_first", GB, _GB_LOOP % (r"(.*?)", r"[^;]*?"), _GB_ATOMS, [("size", "Z")], "gbsampler", ["C12"], pick=0),
+    K("src_gb_loop_size", GB, _GB_LOOP % (r"[^;,]*?", r"(.*?)"), _GB_ATOMS, [("size", "Z")], "gbsampler", ["C12"], pick=0),
+    K("src_gb_loop2_first", GB, _GB_LOOP % (r"(.*?)", r"[^;]*?"), _GB_ATOMS, [("size", "Z")], "gbsampler", ["C12"], pick=1),
+    K("src_gb_loop2_size", GB, _GB_LOOP % (r"[^;,]*?", r"(.*?)"), _GB_ATOMS, [("size", "Z")], "gbsampler", ["C12"], pick=1),
+]
